@@ -19,8 +19,33 @@ type c03Fault struct {
 	at   int
 }
 
-// addC03Fault registers one fault on client a; returns a channel that is closed when its side client (if any) is done.
-func addC03Fault(sr *shapeRun, f c03Fault, name string, r *vx.Rand) chan struct{} {
+// side is the second client of an expire/push fault: done is closed when it has finished.
+type side struct {
+	f    *hub.Fault
+	done chan struct{}
+}
+
+// wait waits for the side client if its hold has started (an index beyond the last RPC never starts it).
+func (s *side) wait(w *hub.World) bool {
+	if s == nil || !s.f.Started() {
+		return true
+	}
+	if !waitUntil(scenarioTimeout, func() bool {
+		select {
+		case <-s.done:
+			return true
+		default:
+			return false
+		}
+	}) {
+		w.Hang("side-client")
+		return false
+	}
+	return true
+}
+
+// addC03Fault registers one fault on client a; returns the side client (if any).
+func addC03Fault(sr *shapeRun, f c03Fault, name string, r *vx.Rand) *side {
 	w, a, s := sr.w, sr.a, sr.s
 	g := w.Gate()
 	switch f.kind {
@@ -46,16 +71,24 @@ func addC03Fault(sr *shapeRun, f c03Fault, name string, r *vx.Rand) chan struct{
 		done := make(chan struct{})
 		key := pick(r, s.keys)
 		expire := f.kind == "expire"
-		g.AddFault(&hub.Fault{Kind: hub.Hold, Client: a, N: f.at, Label: f.kind,
+		lockProbe := r.Bool()
+		hf := g.AddFault(&hub.Fault{Kind: hub.Hold, Client: a, N: f.at, Label: f.kind,
 			Start: func() {
 				defer close(done)
 				defer func() { recover() }()
 				if expire {
 					w.AdvanceClock(60000)
 				}
-				b.Begin(false, "2pc")
-				b.Get(key)
-				b.Rollback()
+				if s.pess && lockProbe {
+					// a locking request is what meets (and resolves) pessimistic locks; plain reads ignore them
+					b.Begin(true, "2pc")
+					b.Lock([][]byte{key}, "n")
+					b.Rollback()
+				} else {
+					b.Begin(false, "2pc")
+					b.Get(key)
+					b.Rollback()
+				}
 			},
 			Until: func() bool {
 				select {
@@ -67,7 +100,7 @@ func addC03Fault(sr *shapeRun, f c03Fault, name string, r *vx.Rand) chan struct{
 			},
 			MaxHold: 200 * time.Millisecond,
 		})
-		return done
+		return &side{f: hf, done: done}
 	}
 	return nil
 }
@@ -79,39 +112,35 @@ func c03Scenario(s shape, faults []c03Fault, r *vx.Rand) {
 	if !sr.ok {
 		return
 	}
-	var sides []chan struct{}
+	var sides []*side
 	for i, f := range faults {
-		if ch := addC03Fault(sr, f, string(rune('b'+i)), r); ch != nil {
-			sides = append(sides, ch)
+		if sd := addC03Fault(sr, f, string(rune('b'+i)), r); sd != nil {
+			sides = append(sides, sd)
 		}
 		rec.Count("c03:" + f.kind)
 	}
 	if _, ret := sr.final(); !ret {
 		return
 	}
-	for _, ch := range sides {
-		ch := ch
-		// a hold that never started (index beyond the last RPC) leaves its side client unused
-		waitUntil(300*time.Millisecond, func() bool {
-			select {
-			case <-ch:
-				return true
-			default:
-				return false
+	// twice: a hold whose index lies in the background work starts after Commit has returned
+	for round := 0; round < 2; round++ {
+		for _, sd := range sides {
+			if !sd.wait(w) {
+				return
 			}
-		})
-	}
-	if !w.WaitDrained(scenarioTimeout) {
-		w.Hang("drain")
-		return
+		}
+		if !w.WaitDrained(scenarioTimeout) {
+			w.Hang("drain")
+			return
+		}
 	}
 	recoverAndAudit(w, s.keys, r, r.Intn(6))
 }
 
 func runC03() {
-	nShapes := 13
+	nShapes := 60
 	if run.Thorough() {
-		nShapes = 60
+		nShapes = 700
 	}
 	for n := 0; n < nShapes; n++ {
 		r := rnd.Fork()
